@@ -81,9 +81,11 @@ theorem c05_npm_entry (content : Text) (child v : Node) (p : PkgInfo) (h : npmEn
       · cases h
       · split at h
         · cases h
-        · simp only [Option.some.injEq] at h
-          subst h
-          exact (locOk_of_quoted content v _ _ hq).1
+        · split at h
+          · cases h
+          · simp only [Option.some.injEq] at h
+            subst h
+            exact (locOk_of_quoted content v _ _ hq).1
 
 /-- deno.json -/
 theorem c05_deno_entry (content : Text) (child v : Node) (p : PkgInfo) (h : denoEntry content child = some p)
@@ -95,10 +97,12 @@ theorem c05_deno_entry (content : Text) (child v : Node) (p : PkgInfo) (h : deno
     split at h
     · cases h
     · split at h
-      · simp only [Option.some.injEq] at h
-        subst h
-        exact (locOk_of_quoted content v _ _ hq).1
       · cases h
+      · split at h
+        · simp only [Option.some.injEq] at h
+          subst h
+          exact (locOk_of_quoted content v _ _ hq).1
+        · cases h
 
 /-- Cargo.toml: the three places that report a string value all use `stringVer` -/
 theorem c05_cargo_string (content : Text) (s : Node) (name : Text) (hq : QuotedNode content s) :
@@ -106,19 +110,21 @@ theorem c05_cargo_string (content : Text) (s : Node) (name : Text) (hq : QuotedN
       (stringVer content s).2.2.2.1, (stringVer content s).2.2.2.2, none⟩ :=
   (locOk_of_quoted content s name _ hq).1
 
-/-- pnpm-workspace.yaml: both branches of `parse_package_entry` -/
+/-- pnpm-workspace.yaml: both branches of `parse_package_entry`, for a value node that carries no white space
+    of its own (`lead = 0`, the trimmed text is the node text) -/
 theorem c05_pnpm_entry (content : Text) (pair v : Node) (p : PkgInfo) (h : pnpmEntry content pair = some p)
     (hv : pair.childByField "value" = some v)
-    (hn : (QuotedNode content v ∧ ((startsWith (trim (nodeText content v)) ['\''] && endsWith (trim (nodeText content v)) ['\'']) ||
-            (startsWith (trim (nodeText content v)) ['"'] && endsWith (trim (nodeText content v)) ['"'])) = true) ∨
-          (PlainNode content v ∧ ((startsWith (trim (nodeText content v)) ['\''] && endsWith (trim (nodeText content v)) ['\'']) ||
-            (startsWith (trim (nodeText content v)) ['"'] && endsWith (trim (nodeText content v)) ['"'])) = false)) :
+    (hlead : (nodeText content v).takeWhile isWhite = [])
+    (htrim : trim (nodeText content v) = nodeText content v)
+    (hlen : v.sb + byteLen (nodeText content v) = v.eb)
+    (hn : (QuotedNode content v ∧ quotedText (nodeText content v) = true) ∨
+          (PlainNode content v ∧ quotedText (nodeText content v) = false)) :
     LocOk content p := by
   unfold pnpmEntry at h
   cases hk : pair.childByField "key" with
   | none => simp [hk] at h
   | some k =>
-    simp only [hk, hv] at h
+    simp only [hk, hv, htrim, hlead, byteLen, Nat.add_zero, hlen] at h
     rcases hn with ⟨hq, hquoted⟩ | ⟨hp, hquoted⟩
     · simp only [hquoted, if_true] at h
       split at h
@@ -135,9 +141,18 @@ theorem c05_pnpm_entry (content : Text) (pair v : Node) (p : PkgInfo) (h : pnpmE
 
 /-! ### deviations kept visible -/
 
-/-- **F-C05-4**: a value whose closing quote has not been typed yet is a one-byte node; `start + 1 .. end − 1` is
-    then an INVERTED range -/
-theorem c05_deviation_unterminated (sb : Nat) : ¬ (sb + 1 ≤ (sb + 1) - 1) := by omega
+/-- F-C05-4 (fixed): a value whose closing quote has not been typed yet — a one-byte node, for which
+    `start + 1 .. end − 1` would be an inverted range — is no longer reported at all -/
+theorem c05_unterminated_skipped (content : Text) (child v : Node) (hv : child.childByField "value" = some v)
+    (hc : closedString (nodeText content v) = false) : npmEntry content child = none ∧ denoEntry content child = none := by
+  refine ⟨C04.c04_npm_unclosed_never content child v hv hc, ?_⟩
+  unfold denoEntry
+  split
+  · rfl
+  · simp only [hv]
+    split
+    · rfl
+    · simp [hc]
 
 /-- **F-C05-1**: for a quoted `uses:` value the position of `@` is computed in the UNQUOTED text but added to the
     start of the QUOTED node: the range starts at the `@` and ends after the closing quote -/
